@@ -476,13 +476,13 @@ def judge_inherit(ctx, text, n, g, resp):
 def plan(tier, seed):
     specs = [("containment-small", i, 16) for i in range(16)]
     specs += [("containment-4", i, 16, 1 / 4 if tier == "quick" else 1) for i in range(16)]
-    nrand = 20000 if tier == "quick" else 300000
+    nrand = 20000 if tier == "quick" else 2000000
     specs += [("containment-random", nrand // 16, i) for i in range(16)]
-    ncm = 8000 if tier == "quick" else 150000
+    ncm = 8000 if tier == "quick" else 800000
     specs += [("containment-modules", ncm // 16, i) for i in range(16)]
     specs += [("alias", i, 8) for i in range(8)]
-    specs += [("alias-chains", (4000 if tier == "quick" else 60000) // 16, i) for i in range(16)]
-    specs += [("alias-anon", (30000 if tier == "quick" else 400000) // 16, i) for i in range(16)]
+    specs += [("alias-chains", (4000 if tier == "quick" else 400000) // 16, i) for i in range(16)]
+    specs += [("alias-anon", (30000 if tier == "quick" else 2000000) // 16, i) for i in range(16)]
     specs += [("inherit", 1, 0, 1), ("inherit", 2, 0, 1)] + [("inherit", 3, i, 4) for i in range(4)]
     if tier == "thorough":
         specs += [("inherit", 4, i, 16) for i in range(16)]
